@@ -144,7 +144,46 @@ fn scenarios(dm: &str) -> Vec<Scenario> {
     v
 }
 
+/// where the failing element sits (scenarios without extra states only): 0 = body of the `go` transition,
+/// 1 = onentry of the state `go` enters, 2 = onexit of the state `go` leaves, 3 = a branch of an <if>,
+/// 4 = the body of a <foreach>
+const PLACEMENTS: usize = 5;
+
 fn doc(dm: &str, s: &Scenario) -> String {
+    doc_placed(dm, s, 0)
+}
+
+fn doc_placed(dm: &str, s: &Scenario, placement: usize) -> String {
+    let placement = if s.state_extra.is_empty() && !s.content.is_empty() { placement % PLACEMENTS } else { 0 };
+    let wrapped = match placement {
+        3 => format!("<if cond=\"v == 2\"><log expr=\"1\"/><elseif cond=\"v == 1\"/>{}<script>mark('in-branch-end')</script></if>", s.content),
+        4 => format!("<foreach array=\"[7]\" item=\"it\">{}<script>mark('in-loop-end')</script></foreach>", s.content),
+        _ => s.content.clone(),
+    };
+    let handlers = r##"<transition event="error.execution"><script>mark('err', 'error.execution')</script></transition>
+  <transition event="error.communication"><script>mark('err', 'error.communication')</script></transition>
+  <transition event="error"><script>mark('err', _event.name)</script></transition>
+  <transition event="probe"><script>mark('probe')</script></transition>"##;
+    if placement == 1 || placement == 2 {
+        let (onexit_a, onentry_b) = if placement == 2 { (format!("<onexit>{}</onexit>", wrapped), String::new()) } else { (String::new(), format!("<onentry>{}</onentry>", wrapped)) };
+        return format!(
+            r##"<scxml xmlns="http://www.w3.org/2005/07/scxml" version="1.0" datamodel="{dm}" initial="top">
+ <datamodel><data id="v" expr="1"/></datamodel>
+ <state id="top" initial="a">
+  {handlers}
+  <transition event="*"><script>mark('other', _event.name)</script></transition>
+  <state id="a">{onexit_a}
+   <transition event="go" target="b"><script>mark('go-begin')</script><script>mark('go-end')</script></transition>
+  </state>
+  <state id="b">{onentry_b}</state>
+ </state>
+</scxml>"##,
+            dm = dm,
+            handlers = handlers,
+            onexit_a = onexit_a,
+            onentry_b = onentry_b
+        );
+    }
     format!(
         r##"<scxml xmlns="http://www.w3.org/2005/07/scxml" version="1.0" datamodel="{dm}" initial="a">
  <datamodel><data id="v" expr="1"/></datamodel>
@@ -154,16 +193,14 @@ fn doc(dm: &str, s: &Scenario) -> String {
    {content}
    <script>mark('go-end')</script>
   </transition>
-  <transition event="error.execution"><script>mark('err', 'error.execution')</script></transition>
-  <transition event="error.communication"><script>mark('err', 'error.communication')</script></transition>
-  <transition event="error"><script>mark('err', _event.name)</script></transition>
-  <transition event="probe"><script>mark('probe')</script></transition>
+  {handlers}
   {extra}
   <transition event="*"><script>mark('other', _event.name)</script></transition>
  </state>
 </scxml>"##,
         dm = dm,
-        content = s.content,
+        content = wrapped,
+        handlers = handlers,
         extra = s.state_extra
     )
 }
@@ -201,17 +238,31 @@ pub fn run(args: &Args, rep: &mut Report) {
     let mut idx = 0;
     for dm in &dms {
         let n = scenarios(dm).len();
-        for k in 0..n {
+        for kk in 0..n * PLACEMENTS {
+            let (k, placement) = (kk % n, kk / n);
+            // quick: one placement per scenario, rotating with the seed; thorough: all placements
+            if !args.thorough() && placement != (k + args.seed as usize) % PLACEMENTS {
+                continue;
+            }
+            {
+                let sc = &scenarios(dm)[k];
+                if placement != 0 && (!sc.state_extra.is_empty() || sc.content.is_empty()) {
+                    if args.thorough() {
+                        continue;
+                    }
+                }
+            }
             idx += 1;
             if !args.mine(idx) {
                 continue;
             }
-            let out = dir.join(format!("{}-{}.json", dm, k));
+            rep.count(&format!("placement_{}", ["transition", "onentry", "onexit", "if-branch", "foreach-body"][placement]), 1);
+            let out = dir.join(format!("{}-{}-{}.json", dm, k, placement));
             let _ = std::fs::remove_file(&out);
             let st = std::process::Command::new(&exe)
                 .arg("c12case")
                 .arg(dm)
-                .arg(k.to_string())
+                .arg((k + 1000 * placement).to_string())
                 .arg(&out)
                 .stdout(std::process::Stdio::null())
                 .stderr(std::process::Stdio::null())
@@ -258,11 +309,12 @@ pub fn run(args: &Args, rep: &mut Report) {
 /// child process: one scenario
 pub fn case_main(dm: &str, k: usize, out: &str) -> i32 {
     let all = scenarios(dm);
+    let (k, placement) = (k % 1000, k / 1000);
     let s = &all[k];
     let mut result = json!({"class": s.class, "scenario": s.name, "content": s.content});
     {
-        let xml = doc(dm, s);
-        let wit = json!({"datamodel": dm, "class": s.class, "scenario": s.name, "xml": xml, "events_after_go": s.events.iter().map(|e| e.chars().take(60).collect::<String>()).collect::<Vec<_>>()});
+        let xml = doc_placed(dm, s, placement);
+        let wit = json!({"datamodel": dm, "class": s.class, "scenario": s.name, "placement": placement, "xml": xml, "events_after_go": s.events.iter().map(|e| e.chars().take(60).collect::<String>()).collect::<Vec<_>>()});
         let mut case = Case::new();
         let wfsm = parse_xml(WITNESS).unwrap();
         let mut witness = case.start(wfsm);
